@@ -127,6 +127,69 @@ def check_case(rep, drv, case, rng=None):
                     rep.disagree('DEC-noncanonical', replay, 'ok', 'rejected')
 
 
+def check_every_string_class(rep):
+    """every string-like class the library defines (univ, char, useful - including classes that merely rename another one
+    and have a typeId of their own, such as T61String and ISO646String), as the guiding type: bare, IMPLICITly and
+    EXPLICITly tagged, as a SEQUENCE member, a SEQUENCE OF element and a CHOICE alternative.  The canonical encoding is
+    accepted; the segmented and the indefinite-length rewrites are refused by the DER decoder."""
+    import importlib
+    from pyasn1.type import univ, namedtype, tag
+    from pyasn1.codec.der import decoder as der_decoder, encoder as der_encoder
+    from pyasn1 import error
+    classes = []
+    for modname in ('univ', 'char', 'useful'):
+        mod = importlib.import_module('pyasn1.type.' + modname)
+        for nm in sorted(vars(mod)):
+            c = getattr(mod, nm)
+            if isinstance(c, type) and issubclass(c, univ.OctetString) and not issubclass(c, univ.Any) and c.__module__ == mod.__name__:
+                classes.append(c)
+    for c in classes:
+        text = '20170801120112Z' if c.__name__ == 'GeneralizedTime' else '170801120112Z' if c.__name__ == 'UTCTime' else '12345678'
+        try:
+            val = c(text)
+        except Exception:  # noqa
+            continue
+        content = bytes(val) if c.__name__ not in ('BMPString', 'UniversalString') else val.asOctets()
+        num = c.tagSet.superTags[-1].tagId
+        half = len(content) // 2
+        segs = bytes([4, half]) + content[:half] + bytes([4, len(content) - half]) + content[half:]
+        prim = bytes([num, len(content)]) + content
+        cons = bytes([0x20 | num, len(segs)]) + segs
+        indef = bytes([0x20 | num, 0x80]) + segs + b'\x00\x00'
+        itag = tag.Tag(tag.tagClassContext, tag.tagFormatSimple, 3)
+        layouts = [
+            ('bare', c(), lambda e: e),
+            ('implicit', c().subtype(implicitTag=itag), lambda e: bytes([(e[0] & 0x20) | 0x83]) + e[1:]),
+            ('explicit', c().subtype(explicitTag=itag), lambda e: bytes([0xa3, len(e)]) + e),
+            ('seq-member', univ.Sequence(componentType=namedtype.NamedTypes(namedtype.NamedType('n', univ.Integer()), namedtype.NamedType('s', c()))),
+             lambda e: bytes([0x30, 3 + len(e)]) + b'\x02\x01\x05' + e),
+            ('seqof-element', univ.SequenceOf(componentType=c()), lambda e: bytes([0x30, len(e)]) + e),
+            ('choice-alt', univ.Choice(componentType=namedtype.NamedTypes(namedtype.NamedType('n', univ.Integer()), namedtype.NamedType('s', c()))), lambda e: e),
+        ]
+        for lname, spec, wrap in layouts:
+            for form, enc, must_accept in (('primitive', prim, True), ('segmented', cons, False), ('indefinite', indef, False)):
+                data = wrap(enc)
+                if len(data) > 127 + 2:
+                    continue
+                rep.evaluations += 1
+                rep.count('string-classes')
+                replay = {'kind': 'string-class', 'class': c.__name__, 'layout': lname, 'form': form, 'bytes': data.hex()}
+                try:
+                    der_decoder.decode(data, asn1Spec=spec)
+                    ok = True
+                except error.PyAsn1Error:
+                    ok = False
+                except Exception as e:  # noqa
+                    rep.fail('noncanonical-leak:' + type(e).__name__, '%s (%s, %s) raised %s' % (c.__name__, lname, form, e), replay)
+                    continue
+                if ok and not must_accept:
+                    rep.fail('noncanonical-accepted:constructed:der:spec:%s' % c.__name__,
+                             'DER decoder guided by %s (%s) accepted the %s form %s' % (c.__name__, lname, form, data.hex()), replay)
+                if not ok and must_accept:
+                    rep.fail('canonical-refused:%s' % c.__name__, 'DER decoder guided by %s (%s) refused the canonical encoding %s' % (
+                        c.__name__, lname, data.hex()), replay)
+
+
 def check_open_type(rep, case, rng):
     """the restrictions hold inside a resolved open type too: the value as the inner value of
     SEQUENCE { id INTEGER, value [ [0] EXPLICIT ] ANY DEFINED BY id }, every rewrite of the inner encoding,
@@ -198,6 +261,7 @@ def run(rep, tier, seed):
                 'DER decoder (and CER for BOOLEAN) with and without the guiding type; non-trivial = rewritten element at depth>=1')
     rep.assumptions = ['ancestor lengths are recomputed minimally so that exactly one element is non-canonical']
     from harness import sexp_types
+    check_every_string_class(rep)
     for ts, vs in CORPUS:
         t = sexp_types.ty_of_sexp(gen.parse_sexps(ts)[0])
         v = gen.val_of_sexp(gen.parse_sexps(vs)[0])
